@@ -21,3 +21,7 @@ def run(chk):
     from .c02 import spec_trampoline
     chk.step("trampoline re-binding", spec_trampoline, chk, 3, eval_probe)
     chk.step("definitions", spec_definition, chk)
+    # the last expression of a body is evaluated by eval_tail_expression: the value of an if is that of the selected arm, a call is
+    # handed back with ITS operator and operands and the environment of the body (so that they are evaluated there) - the unit of C02
+    from .c02 import spec_eval_tail
+    chk.step("eval_tail_expression", spec_eval_tail, chk, 2)
